@@ -32,7 +32,7 @@ type CallCase struct {
 var callParams = []string{"pa", "pb", "pc"}
 
 // names that must not be visible after the calls/cases that created them
-var callProbeNames = []string{"pa", "pb", "pc", "la", "li", "lx", "mq", "ma", "loc1", "loc2", "ga", "ca", "va", "rn", "en", "on", "na", "ra", "loc3", "da", "dx", "dq", "oa", "qa", "ma1", "ma2", "mo", "mb1", "mb2", "qb", "loc4", "loc5", "wn", "wx", "lq", "lm1", "lother", "lb", "lbo", "ml1", "mlo"}
+var callProbeNames = []string{"pa", "pb", "pc", "la", "li", "lx", "mq", "ma", "loc1", "loc2", "ga", "ca", "va", "rn", "en", "on", "na", "ra", "loc3", "da", "dx", "dq", "oa", "qa", "ma1", "ma2", "mo", "mb1", "mb2", "qb", "loc4", "loc5", "wn", "wx", "lq", "lm1", "lother", "lb", "lbo", "ml1", "mlo", "wa", "t1", "t2", "t3", "fa", "fl", "fr", "ns", "nc"}
 
 func (c *CallCase) program() string {
 	var sb strings.Builder
@@ -46,6 +46,12 @@ func (c *CallCase) program() string {
 		sb.WriteString("  li = 0\n  while (li < 3) { li++\n if (li == 2) { return [la, li] } }\n  return \"no\"\n")
 	case "forin":
 		sb.WriteString("  for (lx in [7, 8, 9]) { if (lx == 8) { return [la, lx] } }\n  return \"no\"\n")
+	case "forinstr":
+		sb.WriteString("  for (lx in \"abc\") { if (lx == \"b\") { return [la, lx] } }\n  return \"no\"\n")
+	case "forinobj":
+		sb.WriteString("  for (lx, li in {p: 1, q: 2}) { if (li == 2) { return [la, lx] } }\n  return \"no\"\n")
+	case "nested":
+		sb.WriteString("  for (lx in [1, 2]) { li = 0\n while (li < 3) { li++\n if (lx == 2) { if (li == 2) { return [la, li] } } } }\n  return \"no\"\n")
 	case "match":
 		sb.WriteString("  return match (la) { mq => [mq, 1] }\n")
 	case "matchblock":
@@ -74,6 +80,14 @@ function donext2(qa) { return [donext(qa)] }
 function noret(ra) { loc3 = ra }
 function deepexit(da) { for (dx in [1]) { match (da) { dq => { exit } } } }
 function outer(oa) { return [oa, mklocal(oa), clobber(oa)] }
+function awkloc(wa, t1, t2, t3) { t2 = [wa]
+ t1 = 5
+ return [wa, t1, t2, t3] }
+function fresh(fa) { if (fl is unknown) { fr = "fresh" } else { fr = "stale" }
+ fl = fa
+ return fr }
+function nextstr(ns) { for (nc in "xyz") { if (nc == "y") { NX = ns
+ next } } }
 function proc(qb) { loc4 = clobber(qb)
  loc5 = fid(qb) }
 function walk(wn) { if (wn is array) { for (wx in wn) { walk(wx) } } else { return wn } }
@@ -113,6 +127,14 @@ $.op == "mblock" { mres = "none"
  match ($.a[0]) { [mb1] => { mres = mb1 }, mb2 => { mres = ["s", mb2] } }
  print step, mres }
 $.op == "pat" && clobber($.a[0]) == 99 { print step, "pat" }
+$.op == "awkloc0" { print step, awkloc() }
+$.op == "awkloc1" { print step, awkloc($.a[0]) }
+$.op == "awkloc2" { print step, awkloc($.a[0], $.a[1]) }
+$.op == "fresh" { print step, fresh($.a[0]) }
+$.op == "fresh2" { print step, fresh($.a[0]), fresh($.a[1]) }
+$.op == "nextstr" { print step, "beforestr"
+ nextstr($.a[0])
+ print step, "NOT REACHED" }
 $.op == "proc" { print step, proc($.a[0]) }
 $.op == "walk" { print step, walk($.a[0]) }
 $.op == "mlit" { print step, match ($.a[0]) { [] => "e", [0, 0] => "o", [1, [2, 3]] => "d", [ml1, 9] => ["n", ml1], mlo => "x" } }
@@ -206,6 +228,12 @@ func (c *CallCase) model() (lines []string, exited bool, ok bool) {
 				emit(p(arr(a, num(2))))
 			case "forin":
 				emit(p(arr(a, num(8))))
+			case "forinstr":
+				emit(p(arr(a, str("b"))))
+			case "forinobj":
+				emit(p(arr(a, str("q"))))
+			case "nested":
+				emit(p(arr(a, num(2))))
 			case "match":
 				emit(p(arr(a, num(1))))
 			case "matchblock":
@@ -283,6 +311,21 @@ func (c *CallCase) model() (lines []string, exited bool, ok bool) {
 			}
 		case "pat":
 			emit("pat")
+		case "awkloc0":
+			emit(p(arr(jNull, num(5), arr(jNull), jNull)))
+		case "awkloc1":
+			emit(p(arr(arg(0), num(5), arr(arg(0)), jNull)))
+		case "awkloc2":
+			// the second argument is overwritten by the callee, the others keep their binding
+			emit(p(arr(arg(0), num(5), arr(arg(0)), jNull)))
+		case "fresh":
+			emit("fresh")
+		case "fresh2":
+			emit("fresh fresh")
+		case "nextstr":
+			emit("beforestr")
+			NX = arg(0)
+			skipEOR = true
 		case "proc":
 			emit("null")
 		case "walk":
@@ -544,8 +587,8 @@ func genCallArg(t *Tape) string {
 }
 
 func genCallOp(t *Tape) CallOp {
-	ops := []string{"id0", "id1", "id2", "id3", "id4", "loopret", "mklocal", "setg", "readg", "clobber", "viaother", "rec", "mutual", "donext", "donext2", "noret", "outer", "mexpr", "mblock", "pat", "proc", "walk", "mlit", "litmatch", "litblock"}
-	w := []int{1, 2, 2, 2, 2, 3, 3, 2, 2, 3, 2, 2, 1, 3, 2, 2, 2, 4, 3, 2, 3, 2, 3, 3, 2}
+	ops := []string{"id0", "id1", "id2", "id3", "id4", "loopret", "mklocal", "setg", "readg", "clobber", "viaother", "rec", "mutual", "donext", "donext2", "noret", "outer", "mexpr", "mblock", "pat", "proc", "walk", "mlit", "litmatch", "litblock", "awkloc0", "awkloc1", "awkloc2", "fresh", "fresh2", "nextstr"}
+	w := []int{1, 2, 2, 2, 2, 3, 3, 2, 2, 3, 2, 2, 1, 3, 2, 2, 2, 4, 3, 2, 3, 2, 3, 3, 2, 1, 2, 2, 4, 2, 2}
 	op := ops[t.Weighted(w...)]
 	var args []string
 	switch op {
@@ -571,8 +614,38 @@ func genCallOp(t *Tape) CallOp {
 	return CallOp{Op: op, A: json.RawMessage("[" + strings.Join(args, ",") + "]")}
 }
 
+// genVeryLongCase: a hundred thousand and more completed operations of cheap
+// kinds in one run: anything that is left behind per completed call, match,
+// return or next (a frame, a counter, a slot) accumulates past every fixed budget.
+func genVeryLongCase(t *Tape) *CallCase {
+	c := &CallCase{Arity: t.Draw(4), LoopKind: []string{"for", "while", "forin", "match", "matchblock", "if", "forinstr"}[t.Draw(7)]}
+	kinds := []string{"donext", "id1", "loopret", "mexpr", "mblock", "noret", "proc", "nextstr", "donext2", "clobber", "mlit"}
+	dom := kinds[t.Draw(len(kinds))]
+	n := 110000 + t.Draw(30000)
+	mk := func(k string) CallOp {
+		switch k {
+		case "mexpr":
+			return CallOp{Op: k, A: []byte("[[1,2]]")}
+		case "mblock":
+			return CallOp{Op: k, A: []byte("[[1]]")}
+		case "mlit":
+			return CallOp{Op: k, A: []byte("[[0,0]]")}
+		}
+		return CallOp{Op: k, A: []byte("[1]")}
+	}
+	for i := 0; i < n; i++ {
+		if i%16 == 15 {
+			c.Ops = append(c.Ops, mk(kinds[t.Draw(len(kinds))]))
+		} else {
+			c.Ops = append(c.Ops, mk(dom))
+		}
+	}
+	c.Chunk = 1000
+	return c
+}
+
 func genCallCase(t *Tape, long bool) *CallCase {
-	c := &CallCase{Arity: t.Draw(4), LoopKind: []string{"for", "while", "forin", "match", "matchblock", "if"}[t.Draw(6)]}
+	c := &CallCase{Arity: t.Draw(4), LoopKind: []string{"for", "while", "forin", "match", "matchblock", "if", "forinstr", "forinobj", "nested"}[t.Draw(9)]}
 	n := 1 + t.Draw(30)
 	if long {
 		n = 4300 + t.Draw(1800)
@@ -638,6 +711,16 @@ func registerC08() {
 		Workloads: []*Workload{
 			mk("short-histories", map[string]int{"quick": 12000, "thorough": 1500000}, false),
 			mk("long-histories", map[string]int{"quick": 96, "thorough": 12000}, true),
+			{
+				Name:        "very-long-histories",
+				Count:       func(tier string) int { return map[string]int{"quick": 16, "thorough": 400}[tier] },
+				Gen:         func(i int, t *Tape, tier string) any { return genVeryLongCase(t) },
+				Run:         func(c any, keep bool) Outcome { return runCallCase(c.(*CallCase), keep) },
+				New:         func() any { return &CallCase{} },
+				ShrinkEvals: 60,
+				Simplify:    simplifyCall,
+				NoRecheck:   true,
+			},
 		},
 	})
 }
